@@ -182,7 +182,7 @@ pub fn hostile_msg(seed: u64, idx: u64) -> Vec<u8> {
         p.qs.push(q);
     }
     // force hostile content into every string / label with high probability
-    let mut hostile = |r: &mut Rng, v: &mut Vec<u8>, max: usize| {
+    let hostile = |r: &mut Rng, v: &mut Vec<u8>, max: usize| {
         if r.chance(2, 3) {
             let hb: &[u8] = *r.pick(&HOSTILE_BYTES);
             let at = if v.is_empty() { 0 } else { r.usize(0, v.len()) };
